@@ -39,6 +39,11 @@ CHECKS = {
          "Finite-state proof per size and rule on the index-canonical quotient model (closed under every next key, hence all histories), transferred to the code by walking the same state graph on real LookupEncoder/LookupDecoder objects: "
          "state and transition counts equal, transition sets equal for small sizes, every real transition judged by the table contract; long random histories for sizes 8..4096.",
          "TLC exhaustive model checking of spec/PyLookup.tla + state-graph comparison on real objects"),
+ "C06": ("model_checking", "6 C06",
+         "TLC enumerates the complete lattice (3 stream classes x 8 logical types x delimited x frame_size{1,2,250} x {inferred flow, 6 FrameFlow classes} x {1,2} sinks = 2016 points) on spec/PyConfig.tla with invariant NoSilentDrop "
+         "(and must find it violated when the model's final flush is restricted to flat types); every point is replayed on the real classes through stream_frames of both integrations and, with the class guessed, through flat_/grouped_stream_to_file, Graph.serialize, sink.serialize; "
+         "an accepted call must leave stream.flow empty and its bytes are judged by TLC (denotation = input).",
+         "TLC exhaustive model checking of spec/PyConfig.tla + replay of every lattice point into the real serializers + TLC trace judging"),
  "C07": ("model_checking", "6 C07",
          "spec/Framing.tla enumerates every partition of an N-row sequence into frames (N = 5..8 quick, ..11 thorough; with empty frames); every partition of every TLC-generated row sequence is re-framed by /verif's codec, every second frame carrying metadata, "
          "and parsed flat and grouped by both integrations against the TLC-computed denotation (one sink per frame, content per frame, metadata visible). Grouped serialization of sink sequences through one shared stream: one frame per non-empty sink, judged by TLC.",
@@ -78,7 +83,7 @@ m = {
    "enable": "no source hooks in /repo: recorders are installed from /verif by wrapping functions at run time; ./check sets JELLY_RDF_PYJELLY_VERIF=1 and PYTHONPATH=/repo so the working tree (not the compiled copy in /venv) is imported",
    "baseline_off_cmd": "cd /repo && /venv/bin/python -m pytest -ra -q -p no:cacheprovider --timeout=900 --continue-on-collection-errors; rc=$?; git -C /repo checkout -- tests/integration_tests/test_examples/temp; exit $rc",
    "source_commits": [],
-   "fix_commits": ["caaa11c", "ad129d3", "7027c39", "8dbb8a6", "b731d1a", "a25bb8c", "e37ed0f", "6cc2110"],
+   "fix_commits": ["caaa11c", "ad129d3", "7027c39", "8dbb8a6", "b731d1a", "a25bb8c", "e37ed0f", "38e535b", "6cc2110"],
    "add_only": True,
  },
  "engines": [
